@@ -426,6 +426,11 @@ class SimSocket(object):
     def recv_into(self, buf, nbytes=0):
         if not nbytes:
             nbytes = len(buf)
+        if nbytes > len(buf):
+            if self._st.tls:
+                nbytes = len(buf)       # _ssl clamps the request to the buffer
+            else:
+                raise ValueError("buffer too small for requested bytes")   # as socket.recv_into does
         data = self._st.sim.sock_recv(self._st, nbytes)
         n = len(data)
         buf[:n] = data
